@@ -116,7 +116,7 @@ def k3_feature(ctx):
         sh = smgen.Shape(async_=(i % 2 == 0), dynamic=False, concrete=(i % 3 == 0), depth=i % 4,
                          nleaves=rnd.randint(2, 5), nevents=rnd.randint(1, 3), data=rnd.choice(['none', 'some', 'all']),
                          hooks=rnd.choice([0, 1, 2, 3]), payload=rnd.choice(['none', 'mixed', 'all']))
-        defs.append(smgen.gen_wellformed(rnd, sh))
+        defs.append(smgen.gen_wellformed(rnd, sh, idx=-1))      # idx < 0: the machine's name comes from NAME_POOL
     mods = []
     for i, d in enumerate(defs):
         name = smgen.get(d, 'name')
